@@ -136,12 +136,13 @@ Proof.
   unfold decide_u. rewrite (find_unclaimed_u _ _ W), F. destruct (collected_run p f0); reflexivity.
 Qed.
 
-(* the handlers in front of the table after the earlier runs *)
-Lemma uh_state_after l : forall s,
-  uh (state_after l s) = fold_left (fun u p => rev (inserted p) ++ u) l (uh s).
+(* the handlers in front of the table after the earlier runs, whatever RunTest factory the case has *)
+Lemma uh_state_after r l : forall s,
+  uh (state_after r l s) = fold_left (fun u p => rev (inserted p) ++ u) l (uh s).
 Proof.
-  induction l as [|p r IH]; intros s; [reflexivity|]. unfold state_after in *. cbn [fold_left].
-  rewrite IH. destruct (run_from_verdict p (clear s)) as (s' & d & R & _ & _ & _ & _ & U & _).
+  induction l as [|p l' IH]; intros s; [reflexivity|]. unfold state_after in *. cbn [fold_left].
+  rewrite IH. unfold run_from_runner.
+  destruct (run_from_with_verdict (runner_last_resort r) p (clear s)) as (s' & d & R & _ & _ & _ & _ & U & _).
   rewrite R. cbn [fst]. rewrite U. reflexivity.
 Qed.
 Lemma uh_start_state i : uh (start_state i) = handlers_before i.
@@ -172,40 +173,86 @@ Qed.
 Definition verdict_at (i : input) : outcome * option exc :=
   verdict_from (i_prog i) (handlers_before i) (force (start_state i)).
 
+(* the outcome events the flavour's result receives: the verdict's outcome when a handler is responsible
+   for the reported exception (or nothing was caught); what the RunTest's handler of last resort reports
+   - possibly nothing - when nobody is *)
+Definition out_events (f : flavour) (lr : option outcome) (v : outcome * option exc) : list ev :=
+  match snd v with
+  | None => [Out (deliver f (fst v))]
+  | Some _ => match lr with Some o => [Out (deliver f o)] | None => [] end
+  end.
+
 Lemma model_obs i :
   exists ran,
-    model i = {| o_events := if has_stop (i_flavour i)
-                             then [Start; Out (deliver (i_flavour i) (fst (verdict_at i))); Stop]
-                             else [Start; Out (deliver (i_flavour i) (fst (verdict_at i)))];
+    model i = {| o_events := [Start] ++ out_events (i_flavour i) (runner_last_resort (i_runner i)) (verdict_at i)
+                             ++ (if has_stop (i_flavour i) then [Stop] else []);
                  o_raised := match snd (verdict_at i) with Some e => kind_of e | None => RNone end;
                  o_ran := ran |}
     /\ forall t, In t ran <-> In t (expected_tokens (i_prog i)).
 Proof.
-  unfold model, verdict_at. rewrite <- uh_start_state.
-  destruct (run_from_verdict (i_prog i) (clear (start_state i))) as (s & d & R & C & L & _).
+  unfold model, verdict_at, run_from_runner. rewrite <- uh_start_state.
+  destruct (run_from_with_verdict (runner_last_resort (i_runner i)) (i_prog i) (clear (start_state i)))
+    as (s & d & R & C & L & _).
   cbn [clear uh force tr log set_tr set_log calls filter map app] in *. rewrite R.
   exists (tokens_of (log s)). split.
-  - rewrite events_of_calls, C. unfold events_of. cbn [flat_map app]. destruct (has_stop (i_flavour i)); reflexivity.
+  - rewrite events_of_calls, C. unfold events_of, outs_with, out_events.
+    destruct (snd (verdict_from _ _ _)); [destruct (runner_last_resort _)|];
+      cbn [flat_map app]; destruct (has_stop (i_flavour i)); reflexivity.
   - intros t. rewrite tokens_shape, L, expected_tokens_in. reflexivity.
 Qed.
+
+Lemma existsb_find_some {A} (f : A -> bool) l : existsb f l = true -> exists x, find f l = Some x.
+Proof. rewrite existsb_find. destruct (find f l) as [x|]; [eexists; reflexivity | discriminate]. Qed.
+Lemma find_none_existsb {A} (f : A -> bool) l : find f l = None -> existsb f l = false.
+Proof. rewrite existsb_find. now intros ->. Qed.
 
 Theorem model_meets_spec i : wf i = true -> spec_okb i (model i) = true.
 Proof.
   intros W. unfold wf in W. apply andb_true_iff in W as [_ Wh]. fold (within_Exception (handlers_at_outcome i)) in Wh.
   unfold handlers_at_outcome in Wh.
   destruct (model_obs i) as (ran & -> & Hran). unfold spec_okb. cbn [o_events o_raised o_ran].
-  assert (B : bracket (i_flavour i)
-                (if has_stop (i_flavour i)
-                 then [Start; Out (deliver (i_flavour i) (fst (verdict_at i))); Stop]
-                 else [Start; Out (deliver (i_flavour i) (fst (verdict_at i)))])
-              = Some (deliver (i_flavour i) (fst (verdict_at i)))).
-  { unfold bracket. destruct (has_stop (i_flavour i)); reflexivity. }
-  rewrite B. unfold verdict_at.
+  rewrite runner_last_resort_default, table_last_resort. unfold verdict_at.
+  assert (B : forall o, bracket (i_flavour i) ([Start] ++ [Out o] ++ (if has_stop (i_flavour i) then [Stop] else []))
+                        = Some o).
+  { intros o. unfold bracket. destruct (has_stop (i_flavour i)) eqn:Hs; cbn [app]; rewrite ?Hs; reflexivity. }
   destruct (find (fun e => negb (derives_from_Exception e)) (raised (i_prog i))) as [e|] eqn:F.
-  - rewrite (verdict_from_base _ _ _ _ Wh F). cbn [fst snd].
-    rewrite (proj2 (outcome_eqb_spec _ _) eq_refl), (proj2 (rk_eqb_spec _ _) eq_refl). cbn [andb].
+  - rewrite (verdict_from_base _ _ _ _ Wh F). unfold out_events. cbn [fst snd].
+    rewrite B, (proj2 (outcome_eqb_spec _ _) eq_refl), (proj2 (rk_eqb_spec _ _) eq_refl). cbn [andb].
     apply forallb_forall. intros t Ht. apply memb_in, Hran, Ht.
-  - rewrite (verdict_from_no_base _ _ _ Wh F). reflexivity.
+  - pose proof (verdict_from_no_base _ (handlers_before i) (force (start_state i)) Wh F) as V.
+    unfold out_events. rewrite V, B. reflexivity.
+Qed.
+
+(* the configuration is irrelevant: whatever RunTest factory the case has, however it is installed - also one
+   that cannot be called with last_resort= - the observation is that of the default RunTest *)
+Lemma state_after_irrelevant r l : forall s, state_after r l s = state_after default_runner l s.
+Proof.
+  unfold state_after. induction l as [|p l' IH]; intros s; [reflexivity|]. cbn [fold_left].
+  rewrite !factory_irrelevant. apply IH.
+Qed.
+Theorem model_factory_irrelevant i :
+  model i = model {| i_prev := i_prev i; i_prog := i_prog i; i_flavour := i_flavour i; i_runner := default_runner |}.
+Proof.
+  unfold model, start_state, first_prog. cbn [i_prev i_prog i_flavour i_runner].
+  rewrite (state_after_irrelevant (i_runner i)), !factory_irrelevant. reflexivity.
+Qed.
+
+(* why the handler of last resort has to reach the RunTest (fix F27; a RunTest constructed without one, as the
+   fallback for factories that cannot be called with last_resort= used to leave it): on an instance in ANY
+   state everything happens as with TestCase.run's RunTest - startTest, every body that is to run, what
+   propagates, stopTest last - except that when something propagates NO outcome is reported *)
+Theorem no_last_resort_run p s :
+  exists s' o d prop, run_from_with None p s = (s', prop, false)
+    /\ calls (tr s') = calls (tr s) ++ [TStart] ++ (match prop with None => [TOut o d] | Some _ => [] end) ++ [TStop]
+    /\ map shape (log s') = map shape (log s) ++ expected_log p /\ stack s' = []
+    /\ exists s1, run_from p s = (s1, prop, false).
+Proof.
+  destruct (run_from_with_verdict None p s) as (s' & d & R & C & L & K & _).
+  destruct (run_from_verdict p s) as (s1 & d1 & R1 & _).
+  exists s', (fst (verdict_from p (uh s) (force s))), d, (snd (verdict_from p (uh s) (force s))).
+  split; [exact R|]. split.
+  { rewrite C. unfold outs_with. destruct (snd (verdict_from p (uh s) (force s))); reflexivity. }
+  split; [exact L|]. split; [exact K|]. exists s1. exact R1.
 Qed.
 
 (* C01_bracket for a run of an instance in ANY state (whatever it ran before, whatever that left
@@ -257,7 +304,11 @@ Qed.
 (* ... and on what each result flavour receives *)
 Theorem bracket_delivered i :
   exists o, o_events (model i) = if has_stop (i_flavour i) then [Start; Out o; Stop] else [Start; Out o].
-Proof. destruct (model_obs i) as (ran & -> & _). eexists. reflexivity. Qed.
+Proof.
+  destruct (model_obs i) as (ran & -> & _). cbn [o_events].
+  unfold out_events. rewrite runner_last_resort_default, table_last_resort.
+  destruct (snd (verdict_at i)); eexists; destruct (has_stop (i_flavour i)); reflexivity.
+Qed.
 
 (* C01_base_reported: an exception outside Exception raised anywhere is reported as the error,
    every stage and cleanup still runs (the log is the full expected one), and the first such
